@@ -3,6 +3,7 @@ import Orx.KSLedger
 import Orx.KSFault
 import Orx.IW.Outs
 import Orx.IW.FullLedgerRun
+import Orx.GenThms.Own
 /-! # C08 Consumed elements are moved out or dropped exactly once -/
 namespace Orx.Props.C08
 open Orx Orx.KS
@@ -188,5 +189,98 @@ example : IWF.Below itS itSched (IWF.init itProgs) ∧
   intro t ht
   have : t = 0 ∨ t = 1 := by omega
   rcases this with rfl | rfl <;> decide +kernel
+
+
+/-! ## The source itself: the owner-side code translated on every run (`Generated/Own.lean`, `GenThms/Own.lean`) -/
+section Source
+open Orx.RSO Orx.GenO Orx.GenThms.Own
+
+/-- **a chunk of a consumed vector / array as in the source** (`Taken::next`, `Drop for Taken`, and through std's default
+methods `nth` / `fold` / `count`: `source_chunk_iterator_overrides`): whatever number `j` of elements the caller pulls before
+dropping the chunk, it receives the first `min j len` positions of the chunk in order and the drop destroys exactly the
+others — every position once, nothing outside the chunk touched, no fault (no slot read or destroyed twice, no pointer out
+of its allocation), also when a destructor panics (then the call unwinds after destroying the rest) -/
+theorem source_chunk_partition (cap b len j f : Nat) (s : OSt) (ρ' : Type) (hc : b + len ≤ cap) (hw : cap < W)
+    (hu : Untouched s b (b + len)) :
+    (consumeTaken f j (taken cap b len 0) : PF ρ' _) s =
+      if dpHit s.dpanic (len - min j len) then .unwind (afterConsume s b len 0 j)
+      else .ok (.norm (KS.rangeList b (b + min j len))) (afterConsume s b len 0 j) := by
+  have := consume_taken cap b len f ρ' hc hw j 0 s (Nat.zero_le _) (by simpa using hu)
+  simpa [KS.rangeList, RSO.rangeList] using this
+
+/-- what the caller got and what the drop destroyed are together the chunk, each position once -/
+theorem source_chunk_partition_lists (b len j : Nat) :
+    RSO.rangeList (b + 0) (b + min (0 + j) len) ++ RSO.rangeList (b + min (0 + j) len) (b + len) = RSO.rangeList b (b + len) := by
+  simpa using GenThms.Own.rangeList_append b (b + min (0 + j) len) (b + len) (by omega) (by omega)
+
+theorem source_chunk_iterator_overrides : Taken.iterator_overrides = ["next", "size_hint"] := taken_overrides_only_next
+
+/-- **`Drop for ConIterOfVec` as in the source = the model's owner step**: both destroy exactly the positions
+`[min(counter, len), len)`, in order; the source does so without a fault, for every length, capacity and counter value,
+and also when a destructor panics -/
+theorem source_vec_drop_is_model_drop (s : KSrc) (hk : s.kind = .vec) (c : Cfg) (cap f : Nat) (o : OSt) (ρ' : Type)
+    (hctr : o.ctr = c.ctr 0) (hc : VecCell o s.len cap) (hu : Untouched o (min o.ctr s.len) s.len) :
+    (KS.owner s c .drop).1.dr = c.dr ++ KS.rangeList (min (c.ctr 0) s.len) s.len ∧
+    (afterVecDrop o s.len cap).dr = o.dr ++ KS.rangeList (min (c.ctr 0) s.len) s.len ∧
+    ((Vec.drop f (vecS s.len) : PF ρ' _) o = .ok (.norm ((), vecS s.len)) (afterVecDrop o s.len cap) ∨
+     (Vec.drop f (vecS s.len) : PF ρ' _) o = .unwind (afterVecDrop o s.len cap)) := by
+  refine ⟨drop_drops_remainder s c (by simp [KSrc.owning, hk]), by simp [afterVecDrop, hctr, KS.rangeList, RSO.rangeList], ?_⟩
+  rw [vec_drop s.len s.len cap f o ρ' hc hu]
+  cases dpHit o.dpanic (s.len - min o.ctr s.len) <;> simp
+
+/-- the same for the array -/
+theorem source_array_drop_is_model_drop (s : KSrc) (hk : s.kind = .array) (c : Cfg) (f : Nat) (o : OSt) (ρ' : Type)
+    (hctr : o.ctr = c.ctr 0) (hc : ArrCell o s.len) (hu : Untouched o (min o.ctr s.len) s.len) :
+    (KS.owner s c .drop).1.dr = c.dr ++ KS.rangeList (min (c.ctr 0) s.len) s.len ∧
+    (afterArrDrop o s.len).dr = o.dr ++ KS.rangeList (min (c.ctr 0) s.len) s.len ∧
+    ((Arr.drop f s.len arrS : PF ρ' _) o = .ok (.norm ((), arrS)) (afterArrDrop o s.len) ∨
+     (Arr.drop f s.len arrS : PF ρ' _) o = .unwind (afterArrDrop o s.len)) := by
+  refine ⟨drop_drops_remainder s c (by simp [KSrc.owning, hk]), ?_, ?_⟩
+  · unfold afterArrDrop
+    by_cases h : o.ctr ≤ s.len
+    · have : min (c.ctr 0) s.len = o.ctr := by omega
+      simp [h, this, KS.rangeList, RSO.rangeList]
+    · have : min (c.ctr 0) s.len = s.len := by omega
+      simp [h, this, KS.rangeList]
+  · rw [arr_drop s.len f o ρ' hc hu]
+    by_cases h : o.ctr ≤ s.len ∧ dpHit o.dpanic (s.len - o.ctr) = true <;> simp [h]
+
+/-- **`skip_to_end` on a consumed vector as in the source = the model's `skip` step**: one `swap(len)`, then exactly the
+positions no pull has reserved are destroyed in place -/
+theorem source_vec_skip_destroys_unreserved (len cap f : Nat) (o : OSt) (ρ' : Type) (hc : VecCell o len cap)
+    (hu : Untouched o (min o.ctr len) len) :
+    (afterSkip o len).dr = o.dr ++ KS.rangeList (min o.ctr len) len ∧ (afterSkip o len).ctr = len ∧
+    ((Vec.early_exit f (vecS len) : PF ρ' _) o = .ok (.norm ()) (afterSkip o len) ∨
+     (Vec.early_exit f (vecS len) : PF ρ' _) o = .unwind (afterSkip o len)) := by
+  refine ⟨by simp [afterSkip, KS.rangeList, RSO.rangeList], rfl, ?_⟩
+  rw [vec_early_exit len cap f o ρ' hc hu]
+  cases dpHit o.dpanic (len - min o.ctr len) <;> simp
+
+/-- **a single pull of a consumed vector as in the source**: the element at the counter value read is moved out of the
+storage exactly when that value is below the length — once: a second `take_one` of the same slot would fault -/
+theorem source_vec_single_pull_moves_once (len cap f : Nat) (o : OSt) (ρ' : Type) (hc : VecCell o len cap) (hlt : o.ctr < len)
+    (hu : Untouched o o.ctr (o.ctr + 1)) :
+    (Vec.fetch_one f (vecS len) : PF ρ' _) o =
+      .ok (.norm (some ⟨o.ctr, o.ctr⟩)) { o with ctr := wrapAdd o.ctr 1, evs := o.evs ++ [.faa (.ctr 0) .acqrel o.ctr 1], vac := o.vac ++ [o.ctr], scratch := none } := by
+  rw [vec_fetch_one len cap f o ρ' hc (fun _ => hu)]; simp [hlt]
+
+/-- `AtomicIter::get(i)` twice on a consuming iterator (finding D12) at the source level: the second call reads a vacated
+slot — the ownership discipline is violated (`Fault.precondition`) -/
+theorem source_get_twice_faults (len cap i f : Nat) (o : OSt) (hc : VecCell o len cap) (hi : i < len) (hu : Untouched o i (i + 1)) :
+    ((do let _ ← Vec.get f (vecS len) i; Vec.get f (vecS len) i : PF Unit _) o) = .fail .precondition := by
+  have h2 : i ≤ cap := by have := hc.2; omega
+  have h3 : i < cap := by have := hc.2; omega
+  simp only [bind, PF.bind, vec_get_some len cap i f o _ hc hi hu]
+  simp [Vec.get, Vec.take_one, vecS, m_fn, pure, bind, PF.bind, m_cmp, hi, m_as_mut_ptr, MAsMutPtr.m_as_mut_ptr, hc.1, m_add, h2,
+    MaybeUninit_uninit, m_read, h3]
+
+/-- non-vacuity: a vector of 3 elements in a block of 4, one pulled, nothing injected -/
+example : VecCell { cell := some ⟨0, 3, 4, 0⟩, ctr := 1, vac := [0] } 3 4 ∧
+    Untouched { cell := some ⟨0, 3, 4, 0⟩, ctr := 1, vac := [0] } (min 1 3) 3 := by
+  refine ⟨⟨rfl, by omega⟩, ?_⟩
+  intro p h1 h2
+  simp; omega
+
+end Source
 
 end Orx.Props.C08
